@@ -63,6 +63,8 @@ QUERIES = [[n] for n in NAMES] + [["corner", "edge"], ["edge", "core"], ["side",
 THIN = [f"uniform.{g}.2" for g in ("corner", "edge", "core", "side", "center")] + \
        [f"{g}_uniform_3" for g in ("edge", "core")] + \
        [f"{g}_random_1" for g in ("corner", "edge", "core", "side")] + ["edge_random_2", "all_uniform_3"]
+THIN_LABELLED = ("uniform.corner.2", "uniform.edge.2", "uniform.core.2", "uniform.side.2", "edge_uniform_3",
+                 "corner_random_1", "edge_random_2")
 THIN_QUERIED = ("uniform.edge.2", "corner_random_1", "all_uniform_3")
 FALL_QUERIES = [[n] for n in NAMES] + [["corner", "edge"], ["side", "core"], ["corner", "all"]]
 
@@ -260,7 +262,7 @@ def run_impl(case):
                 sdf, _ = S3.to_frame(n_timeSteps=2)
                 dd = sdf[sdf.variable == "t_nucleation"].sort_values("vial")
                 rec["statsLabels"] = [_lab(v) for v in dd["group"].tolist()]
-            if rec["mask"]:
+            if rec["mask"] and sp in THIN_LABELLED:
                 S3.run()
                 _, tdf = S3.to_frame(n_timeSteps=2)
                 t0 = tdf["Time"].min()
@@ -708,7 +710,7 @@ def predicates(case, impl):
         if not set(rec["mask"]) <= set(want[g]) or (want[g] and not rec["mask"]):
             out.append(Failure(clause="store_thinning_in_group", key=f"store_thinning_in_group|storeStates|{mode},{sc}",
                                detail=f"{where}: storeStates={sp!r} records {rec['mask']}, the group {g!r} is {want[g]}"))
-        elif rec["mask"] and g != "all":
+        elif rec["mask"] and g != "all" and "labels" in rec:
             labs = rec.get("labels", [])
             if rec.get("vials") != rec["mask"] + [] or any(
                     (not isinstance(l, str)) or canon(arr, nz, l) != canon(arr, nz, g) for l in labs):
